@@ -467,11 +467,15 @@ func (g *pgen) loop(acc string) GStmt {
 	} else {
 		limit = EInt{pick(g.r, []int{3, 7, 10})}
 	}
+	if len(g.ints) > 0 && g.r.Chance(25) {
+		// a bound computed by a commutative integer operation (its operands can be exchanged)
+		limit = EBin{pick(g.r, []string{"&", "|", "^", "+"}), EVar{g.ints[0]}, EInt{pick(g.r, []int{3, 5, 7})}, TInt}
+	}
 	f := SFor{I: i, Start: EInt{g.r.Intn(3)}, Limit: limit, Cmp: pick(g.r, []string{"<", "<", "<=", "!="}), Step: step}
 	if f.Cmp == "!=" {
 		f.Step = 1
 		f.Start = EInt{0}
-		if _, isVar := limit.(EVar); isVar {
+		if _, isLit := limit.(EInt); !isLit {
 			f.Cmp = "<" // a parameter may be negative: != would not terminate
 		}
 	}
@@ -560,6 +564,13 @@ func GenExecFunc(r *Rng, name string, siblings []string, imps map[string]bool) *
 	}
 	if r.Chance(50) {
 		f.Body = append(f.Body, SIf{C: ECmp{pick(r, []string{">=", ">", "<"}), EVar{acc}, g.intExpr(0)}, Then: []GStmt{SReturn{[]GExpr{g.intExpr(1)}}}})
+	}
+	if r.Chance(25) {
+		// two exits chosen by a test: nothing merges in a phi, only the control flow says which value
+		// leaves through which branch
+		f.Body = append(f.Body, SIf{C: ECmp{pick(r, []string{">", "<", "==", ">="}), EVar{acc}, g.intExpr(0)},
+			Then: []GStmt{SReturn{[]GExpr{g.intExpr(1)}}}, Else: []GStmt{SReturn{[]GExpr{EBin{"+", EVar{acc}, EInt{1 + r.Intn(3)}, TInt}}}}})
+		return f
 	}
 	f.Body = append(f.Body, SReturn{[]GExpr{EVar{acc}}})
 	return f
